@@ -17,6 +17,11 @@ def main():
     rc, o = sh(['git', '-C', '/repo', 'worktree', 'add', '--detach', scratch])
     assert rc == 0, o
     meta = {'id': sid, 'properties': props, 'source': src, 'ran': []}
+    for f in glob.glob(os.path.join(V, 'seeded', sid, 'replay_*')): os.remove(f)
+    old = os.path.join(V, 'seeded', sid, 'meta.json')
+    if os.path.exists(old):
+        try: meta['note'] = json.load(open(old)).get('note')
+        except Exception: pass
     try:
         demos = [f for f in glob.glob(os.path.join(src, '*')) if f.endswith('_test.go') or (f.endswith('.go') and 'demo' in f)]
         pkg = os.environ.get('SEEDTEST_PKG', '.')
@@ -32,7 +37,14 @@ def main():
         rc0, o0 = sh(['go', 'test'] + race + ['-vet=off', '-count=1', '-run', run_pat, './' + pkg], cwd=scratch, timeout=900)
         meta['demo_without_change'] = 'pass' if rc0 == 0 else 'FAIL'
         rc, o = sh(['git', 'apply', os.path.join(src, 'patch.diff')], cwd=scratch)
-        assert rc == 0, 'patch does not apply: ' + o
+        if rc != 0:
+            meta['patch_applies'] = False
+            prev = os.path.join(V, 'seeded', sid, 'meta.json')
+            if os.path.exists(prev):
+                pm = json.load(open(prev)); pm['patch_applies_to_current_repo'] = False
+                pm['note'] = ((pm.get('note') or '') + ' The patch no longer applies to the current /repo (a later fix: commit changed the same lines); the results above are from the tree it was made for.').strip()
+                json.dump(pm, open(prev, 'w'), indent=1)
+            print(sid, 'patch does not apply any more:', o[:200]); return
         rc, o = sh(['go', 'build', './...'], cwd=scratch)
         meta['builds'] = rc == 0
         rc1, o1 = sh(['go', 'test'] + race + ['-vet=off', '-count=1', '-run', run_pat, './' + pkg], cwd=scratch, timeout=900)
@@ -64,9 +76,10 @@ def main():
         # the generated Lean facts were regenerated from the scratch tree: regenerate them from /repo
         sh([sys.executable, '-c', 'import sys; sys.path.insert(0, %r); import common; common.regen()' % os.path.join(V, 'lib')], cwd=V, e={k: v for k, v in env.items() if k != 'VERIF_REPO'})
     dst = os.path.join(V, 'seeded', sid); os.makedirs(dst, exist_ok=True)
-    shutil.copy(os.path.join(src, 'patch.diff'), dst)
-    for f in glob.glob(os.path.join(src, '*')):
-        if not f.endswith('patch.diff') and os.path.isfile(f): shutil.copy(f, dst)
+    if os.path.abspath(src) != os.path.abspath(dst):
+        shutil.copy(os.path.join(src, 'patch.diff'), dst)
+        for f in glob.glob(os.path.join(src, '*')):
+            if not f.endswith('patch.diff') and os.path.isfile(f): shutil.copy(f, dst)
     notes = os.path.join(src, 'notes.md')
     meta['breaks'] = props[0]
     meta['needs_to_manifest'] = open(notes).read()[:1500] if os.path.exists(notes) else ''
